@@ -54,6 +54,8 @@ def run(ctx):
     compare(ctx, rt, pt, T, schema_ops)
     reject_unknown(ctx, fb, conv)
     narrowing(ctx, fb, conv)
+    const_dtypes(ctx, fb, conv)
+    wire_repeated(ctx, fb)
 
 
 # ---------------------------------------------------------------------------------------------------------------
@@ -316,6 +318,88 @@ def reject_unknown(ctx, fb, conv):
                             loc = f.loc()
     ctx.inst(R, 'rust', ok, 'the ONNX loader returns an error when the operator reader left attributes unused (unknown attributes are rejected, not dropped)' if ok else
              'no error exit controlled by the unused-attribute set found in the ONNX loader: unknown attributes would be silently dropped', loc)
+
+
+ONNX_DTYPE = {1: 'FLOAT', 2: 'UINT8', 3: 'INT8', 4: 'UINT16', 5: 'INT16', 6: 'INT32', 7: 'INT64', 8: 'STRING', 9: 'BOOL', 10: 'FLOAT16',
+              11: 'DOUBLE', 12: 'UINT32', 13: 'UINT64', 14: 'COMPLEX64', 15: 'COMPLEX128', 16: 'BFLOAT16'}
+NUMPY_TO_ONNX = {'float32': 'FLOAT', 'uint8': 'UINT8', 'int8': 'INT8', 'uint16': 'UINT16', 'int16': 'INT16', 'int32': 'INT32', 'int64': 'INT64',
+                 'bool': 'BOOL', 'float16': 'FLOAT16', 'float64': 'DOUBLE', 'uint32': 'UINT32', 'uint64': 'UINT64', 'bfloat16': 'BFLOAT16'}
+
+
+def const_dtypes(ctx, fb, conv):
+    """a model 'that rten-convert converts successfully' must also load directly: the element types of constants the
+    converter accepts (cases of `match dtype_name` in constant_node_from_onnx_initializer) are all handled by the ONNX
+    loader's load_constant (arms of its match on TensorProto.data_type), cross-language table agreement"""
+    import ast
+    R = 'C20.const-dtypes'
+    py = set()
+    tree = ast.parse(open(conv).read())
+    for n in ast.walk(tree):
+        if isinstance(n, ast.FunctionDef) and n.name == 'constant_node_from_onnx_initializer':
+            for m in ast.walk(n):
+                if isinstance(m, ast.Match) and 'dtype' in ast.unparse(m.subject):
+                    for case in m.cases:
+                        raises = any(isinstance(x, ast.Raise) for x in ast.walk(ast.Module(body=case.body, type_ignores=[])))
+                        for x in ast.walk(case.pattern):
+                            if isinstance(x, ast.Constant) and isinstance(x.value, str) and not raises:
+                                py.add(x.value)
+    f = fb.fn('rten::model::onnx_loader::load_constant')
+    rs = set()
+    if f is not None and f.has_mir():
+        for i, b in enumerate(f.bbs):
+            if b.get('c') or i not in f.live():
+                continue
+            t = b['t']
+            if t[0] == 'sw' and t[1][0] in 'cm' and any(isinstance(e, list) and e[0] == 'f' and str(e[3]).endswith('onnx::DataType') for e in t[1][1][1:]):
+                for v, _tb in t[2]:
+                    rs.add(ONNX_DTYPE.get(int(v), 'dtype#%s' % v))
+    if not ctx.anchor(R, 'converter dtype match + load_constant dtype match', len(py) >= 5 and len(rs) >= 5):
+        return
+    unknown = sorted(x for x in py if x not in NUMPY_TO_ONNX)
+    want = {NUMPY_TO_ONNX[x] for x in py if x in NUMPY_TO_ONNX}
+    missing = sorted(want - rs)
+    ctx.inst(R, 'converter-accepted-types-load-directly', not missing and not unknown,
+             'every constant element type the converter accepts (%s) has an arm in the ONNX loader (%s)' % (sorted(want), sorted(rs)) if not missing and not unknown else
+             'the converter accepts constants of type %s but the ONNX loader\'s load_constant has no arm for them: such a model converts and runs as .rten but fails to load directly' % (missing or unknown),
+             f.loc())
+
+
+def wire_repeated(ctx, fb):
+    """the converter reads ONNX files with the official protobuf library, which accepts packed and unpacked encodings of
+    every repeated scalar field; the Rust ONNX parser must too, or a file converts but does not load directly: in every
+    DecodeMessage::decode_fields impl of rten-onnx, a value pushed onto a repeated scalar field never comes straight from
+    a single-value getter (Field::get_*), which rejects the packed (LEN) form - repeated scalars go through
+    Field::read_repeated_*"""
+    R = 'C20.onnx-wire'
+    n, bad, rep = 0, [], 0
+    for f in fb.fns(crate='rten_onnx'):
+        if not f.has_mir() or not re.search(r'DecodeMessage>::decode_fields$', f.path):
+            continue
+        n += 1
+        for c in f.calls():
+            if re.search(r'Field::<.*>::read_repeated_\w+$', c.callee or ''):
+                rep += 1
+            if not re.search(r'Vec::<T(, A)?>::push$', c.callee or '') or len(c.args) < 2:
+                continue
+            r = f.resolve_copy(c.args[1])
+            # through `?`: the pushed value is the Continue payload of Try::branch(get_*(..))
+            src = None
+            if r[0] == 'call':
+                src = r[1]
+            elif r[0] == 'place':
+                for o in f.place_origins(r[1]):
+                    if o[0] == 'call' and re.search(r'Try>::branch$', o[1] or ''):
+                        for k in f.calls():
+                            if k.bb == o[2]:
+                                rr = f.resolve_copy(k.args[0])
+                                if rr[0] == 'call':
+                                    src = rr[1]
+            if src is not None and re.search(r'Field::<.*>::get_(int32|int64|uint32|uint64|float|double|enum|bool|sint32|sint64|fixed32|fixed64)$', src.callee or ''):
+                bad.append('%s (%s)' % (c.loc(), (src.callee or '').split('::')[-1]))
+    ctx.floor(R, 'decode_fields impls in rten-onnx', n, 10)
+    ctx.inst(R, 'repeated-scalars-accept-packed', not bad and rep >= 5,
+             'no repeated scalar field is filled from a single-value getter; %d read_repeated_* sites' % rep if not bad else
+             'a repeated scalar field is filled with Field::get_*: %s - the packed encoding of that field is rejected with FieldTypeMismatch although protobuf parsers (and so the converter) accept it' % ', '.join(bad[:4]), '')
 
 
 def narrowing(ctx, fb, conv):
